@@ -19,6 +19,7 @@ package codec
 //@   arith math
 //@   requires r != nil && r.bytesLimit > 0 && len(input) <= 1000000000 && r.bytesLimit <= 1000000000
 //@   let lim = r.bytesLimit
+//@   loop 1 entry [starts-at-zero] i == 0
 //@   loop 1 invariant 0 <= i && (i == 0 || lim * (i - 1) < len(input))
 //@   loop 1 iteration-ensures [next-block-in-order] calls(cryptFn) == 1 && arg(cryptFn, 0).arr == input.arr && arg(cryptFn, 0).off == input.off + lim * at_head(i) && len(arg(cryptFn, 0)) == min(lim, len(input) - lim * at_head(i)) && ret(cryptFn, 1) == nil && i == at_head(i) + 1 && len(result) == at_head(len(result)) + len(ret(cryptFn, 0))
 //@   ensures [block-error-aborts] result1 != nil ==> result0 == nil && result1 == ret(cryptFn, 1)
